@@ -736,6 +736,9 @@ def scen_foreign_swap(rng):
     ]
     funcs.append(_fn('rootfail', funcs[0]['stmts'] + [['raise', 99]]))
     steps = [_build(root=rng.choice([0, 3, 3])), _build(root=rng.choice([0, 3])), _build()]
+    if rng.random() < 0.35:
+        # the root function succeeds but the cache file cannot be written: the overwritten foreign file is back
+        steps[0] = _build() + [{'inject_op': rng.choice(['write-cache', 'open-for-write']), 'abort': 'end', 'inject_exc': rng.choice(['EIO', 'ENOSPC'])}]
     if rng.random() < 0.5:
         steps.append(['clean', 'n'])
     return {'tree': tree, 'funcs': funcs, 'steps': steps}
@@ -1145,7 +1148,27 @@ def scen_read_after_caught_failure(rng):
     return c
 
 
-SCENARIOS = [scen_read_after_caught_failure, scen_sibling_outputs, scen_fail_then_succeed, scen_reuse_inside_failing, scen_failed_target_becomes_dir, scen_funcname, scen_nested_failure, scen_swap, scen_stale_dir, scen_dups, scen_versions, scen_reads, scen_identity, scen_foreign_swap, scen_sibling_failure, scen_todir, scen_selfread, scen_file_becomes_parent, scen_olddir_becomes_target, scen_prefix_siblings, scen_overlay_order, scen_nested_reuse, scen_double_failure]
+def scen_deep_reuse(rng):
+    """a build_file whose function runs a subbuild that builds another file in a directory of its own (build_file ->
+    subbuild -> build_file), called from the root; unchanged rebuilds reuse the outer record directly, and whatever is
+    nested in it - at any depth - is registered, its directories reserved and recorded; a cached observer looks"""
+    d, e = rng.sample(NAMES + ['ab'], 2)
+    main = '%s/main' % d
+    part = '%s/%s' % (e, rng.choice(['p', 'q/p']))
+    mid_is_sb = rng.random() < 0.7
+    funcs = [_fn('f0', [_bf(main, 1, catch=True), _sb(4)] + _probe(rng, [e, part, ''], 1)),
+             _fn('f1', [_sb(2, catch=False) if mid_is_sb else _bf('%s/mid' % d, 2, catch=False), ['w', None]]),
+             _fn('f2', [_bf(part, 3, catch=False)] + ([] if mid_is_sb else [['w', None]])),
+             _fn('f3', [['w', None]]),
+             _fn('f4', [_q('is_dir', e), _q('list_dir', ''), _q('exists', part)])]
+    funcs.append(_fn('rootfail', funcs[0]['stmts'] + [['raise', 99]]))
+    steps = [_build(), _build(), _build()]
+    if rng.random() < 0.6:
+        steps.append(['clean', rng.choice(['n', None])])
+    return {'tree': [], 'funcs': funcs, 'steps': steps}
+
+
+SCENARIOS = [scen_deep_reuse, scen_read_after_caught_failure, scen_sibling_outputs, scen_fail_then_succeed, scen_reuse_inside_failing, scen_failed_target_becomes_dir, scen_funcname, scen_nested_failure, scen_swap, scen_stale_dir, scen_dups, scen_versions, scen_reads, scen_identity, scen_foreign_swap, scen_sibling_failure, scen_todir, scen_selfread, scen_file_becomes_parent, scen_olddir_becomes_target, scen_prefix_siblings, scen_overlay_order, scen_nested_reuse, scen_double_failure]
 
 
 def gen_scenario_cases(seed, per_family, dirsize=4096, families=SCENARIOS):
